@@ -523,10 +523,23 @@ def rule_one_shot(ctx) -> None:
                 ctx.violation("C09.CALL", ctx.okey(f"{fn.qual}/one-shot-iterator-walked-twice"), fn.loc(call),
                               f"`{src(a)[:50]}` is {what}, but {cq.split(':')[-1]} walks that parameter more than once (again at L{getattr(site, 'lineno', '?')}): every walk after the first is "
                               "empty, so the reducer of the parallel path drops what the sequential walk keeps (later tiers / later fields)")
+    # thunks built in a loop for later execution must bind the loop variable per iteration (lambda S=sh: ...)
+    n_thunks = 0
+    for mn in mods:
+        if mn not in ctx.prog.modules:
+            continue
+        for fn in ctx.prog.module(mn).funcs.values():
+            n_thunks += sum(1 for x in ast.walk(fn.node) if isinstance(x, ast.Lambda)) if "." not in fn.qual.split(":")[-1] else 0
+            for clo, names, lp in hazards.late_binding_closures(ctx, fn):
+                bad += 1
+                ctx.violation("C09.CALL", ctx.okey(f"{fn.qual}/thunk-binds-loop-variable-late"), fn.loc(clo),
+                              f"`{src(clo)[:50]}` is created once per iteration but reads the loop variable {sorted(names)} as a free variable and runs later (submitted / collected): every "
+                              "thunk sees the LAST shard / graph, so the parallel path computes one task n times while the sequential walk computes each once")
+    ctx.floor("C09.CALL", "lambdas in the fan-out / reducer modules", n_thunks, 3)
     ctx.floor("C09.CALL", "calls into program functions in the fan-out / reducer modules", n_calls, 40)
     ctx.holds("C09.CALL", "fan-out-modules/no-one-shot-iterator-rewalked", "clematis/engine/stages",
-              f"{n_calls} calls into program functions examined: {bad} pass a one-shot iterator to a parameter walked more than once; "
-              + hazards.controls(ctx, "clematis.engine.health", ["oneshot"]))
+              f"{n_calls} calls into program functions and {n_thunks} lambdas examined: {bad} pass a one-shot iterator to a parameter walked more than once or capture a loop variable late; "
+              + hazards.controls(ctx, "clematis.engine.health", ["oneshot", "late"]))
 
 
 def run(ctx) -> None:
